@@ -105,6 +105,7 @@ def C04(chk):
     profiles_mc(chk, "nfc-bidi", ["heb", "hpt", "a", "d1", "aid", "eaid", "arab", "fatha", "dot"], n, profs, ops, insts)
     profiles_mc(chk, "context-case", ["l", "mdot", "A", "grk", "GRK", "keraia", "ZWJ", "vir", "deva"], n, profs, ops, insts)
     apply_l1(chk, ["wm", "lc1", "lc3", "bidi"], nontrivial_key="runs")
+    l3_run(chk, "usernames-limits", driver="limits", per_string=2, kinds=["enforce"], profiles=profs, seed_offset=5)
     l3_run(chk, "usernames", strings=500 if q else 6000, per_string=4, kinds=["enforce", "enforce", "prepare"], profiles=profs)
     chk.cov["exhaustive"] = True
     chk.cov["rule"] = ("every string of length <= %d over four 9-role alphabets (width x validation x case, case x NFC, NFC x bidi, "
@@ -123,6 +124,7 @@ def C05(chk):
     profiles_mc(chk, "opq-hangul", ["jamo", "jamoV", "jamoT", "hsyl", "hcj", "a", "NBSP"], n, ["OPQ"], ops, insts)
     profiles_mc(chk, "opq-compat", ["a", "FWA", "rom4", "e", "acute", "angst", "emo", "NBSP", "diaer"], n, ["OPQ"], ops, insts)
     apply_l1(chk, ["osp"], nontrivial_key="zs")
+    l3_run(chk, "opaque-limits", driver="limits", per_string=2, kinds=["enforce"], profiles=["OPQ"], seed_offset=5)
     l3_run(chk, "opaque", strings=500 if q else 6000, per_string=3, kinds=["enforce", "enforce", "prepare", "additional_mapping_rule"], profiles=["OPQ"])
     chk.cov["exhaustive"] = True
     chk.cov["rule"] = ("every string of length <= %d over two 9-role alphabets (all kinds of spaces incl. controls; compatibility, "
@@ -140,6 +142,7 @@ def C06(chk):
     profiles_mc(chk, "nick-compat", ["a", "rom4", "hcj", "eac", "han", "emo", "FWA", "SP", "diaer"], n, ["NICK"], ops, insts)
     profiles_mc(chk, "nick-hangul", ["jamo", "jamoV", "hsyl", "jamoT", "hcj", "a", "OGH", "SP"], n, ["NICK"], ops, insts)
     profiles_mc(chk, "nick-nfkc", ["e", "acute", "Eac", "cedil", "SP", "rom4", "angst", "hy"], n, ["NICK"], ops, insts)
+    l3_run(chk, "nickname-limits", driver="limits", per_string=2, kinds=["enforce"], profiles=["NICK"], seed_offset=5)
     l3_run(chk, "nickname", strings=500 if q else 6000, per_string=3, kinds=["enforce", "enforce", "prepare"], profiles=["NICK"], max_len=10)
     chk.cov["exhaustive"] = True
     chk.cov["rule"] = ("every string of length <= %d over a space alphabet (incl. U+00A8 whose NFKC introduces a leading space, so that "
@@ -349,6 +352,7 @@ def C08(chk):
     allp = ["UCM", "UCP", "OPQ", "NICK"]
     invs = ["Agree", "OutputClean", "NoDrift", "FixedPoint"]
     profiles_mc(chk, "closure-cased", ["A", "Eac", "dotI", "ypo", "angst", "e", "acute", "GRK", "Sig"], n, allp, ["enforce"], insts, invariants=invs)
+    profiles_mc(chk, "closure-marks", ["capJ", "caron", "dotI", "cedil", "acute", "capH", "macronb", "a"], n, ["UCM", "UCP", "NICK"], ["enforce"], insts, invariants=invs)
     profiles_mc(chk, "closure-compat", ["rom4", "hcj", "diaer", "FWA", "ISP", "NBSP", "a", "acute", "SP"], n, allp, ["enforce"], insts, invariants=invs)
     # the invariant really depends on the closure assumptions: with a character whose lowercase image is
     # UNASSIGNED in the universe (role cher) TLC must find OutputClean violated
@@ -365,7 +369,7 @@ def C08(chk):
         tool_error("vacuity guard: OutputClean is not violated by a universe that breaks the lowercase closure assumption")
     chk.add_tlc("MC:closure assumption is necessary (role cher: OutputClean violated, as it must be)", mc.res)
     # exhaustive singles (+ pairs in the thorough tier) through the real enforce
-    out, t = run_harness(["c08sweep", "--oracle", ensure_oracle(), "--seed", str(chk.seed)] + ([] if q else ["--pairs"]))
+    out, t = run_harness(["c08sweep", "--oracle", ensure_oracle(), "--seed", str(chk.seed)] + (["--pairs-small"] if q else ["--pairs"]))
     summary = None
     n_kf = 0
     for line in out.splitlines():
@@ -512,7 +516,21 @@ def C16(chk):
     insts = (0,) if q else (0, 1, 2)
     allp = ["UCM", "UCP", "OPQ", "NICK"]
     profiles_mc(chk, "forms-case", ["a", "A", "Sig", "GRK", "grk", "FWA", "SP", "dotI"], n, allp, ["prepare", "enforce"], insts, invariants=["Agree"], forms=True)
-    profiles_mc(chk, "forms-nfc", ["e", "acute", "Eac", "NBSP", "rom4", "heb", "d1", "aid"], n, allp, ["prepare", "enforce"], insts, invariants=["Agree"], forms=True)
+    profiles_mc(chk, "forms-nfc", ["e", "acute", "Eac", "NBSP", "rom4", "heb", "d1", "aid", "diaer"], n, allp, ["prepare", "enforce"], insts, invariants=["Agree"], forms=True)
+    # (2b) history independence of classification: every scalar value in six different call orders and on 8 threads
+    out, t = run_harness(["ordersweep", "--seed", str(chk.seed)])
+    osum = None
+    for line in out.splitlines():
+        d = json.loads(line)
+        if "summary" in d:
+            osum = d["summary"]
+        elif "problem" in d:
+            chk.violation("classification depends on the calls made before: %s" % json.dumps(d["problem"], sort_keys=True)[:400],
+                          {"layer": "sweep", "case": d["problem"]})
+    if osum is None:
+        tool_error("ordersweep gave no summary")
+    chk.add_part("order sweep", dict(osum, wall_s=round(t, 1)))
+    chk.cov["evaluations"] += osum["calls"]
     # (3) multi-threaded sessions in fresh processes, racing on the first use of the statics
     from l3 import session_run
     session_run(chk, processes=6 if q else 60, threads=8, calls=40 if q else 60)
